@@ -17,7 +17,25 @@ def rz(a):
 
 STIFF = {"C1": (168.4e9, 121.4e9, 75.4e9), "C2": (250.0e9, 150.0e9, 110.0e9)}
 ROTS = {"I": np.eye(3), "R1": rz(TH), "R2": rz(2 * TH)}
-EIGS = {"e1": [0.01, 0.01, 0.03], "e2": 0.02}
+EIGS = {"e1": [0.01, 0.01, 0.03], "e2": 0.02, "e3": [[0.01, 0.004, 0.0], [0.004, 0.02, 0.0], [0.0, 0.0, -0.01]]}
+
+
+def eig_mat(e):
+    v = np.array(EIGS[e], dtype=float)
+    return v * np.identity(3) if v.ndim == 0 else (np.diag(v) if v.ndim == 1 else v)
+
+
+def eig_stamp(t):
+    """which of the supplied eigenstrains the object holds"""
+    t = np.asarray(t, dtype=float)
+    if t.shape != (3, 3):
+        return "unknown"
+    if not t.any():
+        return "zero"
+    for e in EIGS:
+        if np.allclose(t, eig_mat(e), rtol=1e-12, atol=0):
+            return e
+    return "unknown"
 STRESS = {"s1": [1.0e8, 0.0, 3.0e7]}
 SHAPES = {"constant": "constant", "sphere": "sphere", "cube": "cube", "ellipsoid": "ellipsoid"}
 RADII = np.array([2.0e-9, 1.0e-9, 1.0e-9])
@@ -73,6 +91,13 @@ def apply(se, op, arg, how=0):
     return None
 
 
+def apply_other(other, op, arg):
+    """a call on a SECOND live object: nothing it is given may reach the observed one"""
+    if op == "otherEig": other.setEigenstrain(EIGS[arg])
+    elif op == "otherC": other.setElasticConstants(*STIFF[arg])
+    elif op == "otherStress": other.setAppliedStress(STRESS[arg])
+
+
 def canonical_energy(cur, shape):
     """fresh object, inputs supplied in canonical order: rotations, stiffnesses, shape, eigenstrain"""
     se = StrainEnergy()
@@ -87,7 +112,8 @@ def canonical_energy(cur, shape):
 
 ALPHABET = ([("setC", c) for c in STIFF] + [("setP", c) for c in STIFF] + [("setRot", r) for r in ROTS] + [("setRotP", r) for r in ROTS]
             + [("setEig", e) for e in EIGS] + [("setStress", s) for s in STRESS] + [("setShape", s) for s in ("sphere", "cube", "ellipsoid", "constant")]
-            + [("update", ""), ("compute", "")])
+            + [("update", ""), ("compute", "")]
+            + [("otherEig", e) for e in ("e1", "e2")] + [("otherC", "C2"), ("otherStress", "s1")])
 
 
 def run_history(ops, how=0):
@@ -95,11 +121,12 @@ def run_history(ops, how=0):
     cur = {"C": "zero", "P": "zero", "rot": "I", "rotP": "I", "eig": "zero"}
     try:
         se = StrainEnergy()
+        other = StrainEnergy()
         for i, (op, arg) in enumerate(ops):
             # compute with a shape but no matrix stiffness is outside C16 ("for any mechanically stable stiffness tensors"): not called
             if op == "compute" and cur["C"] == "zero" and shape_of(se) != "constant":
                 continue
-            val = apply(se, op, arg, how + i)
+            val = apply_other(other, op, arg) if op.startswith("other") else apply(se, op, arg, how + i)
             if op == "setC": cur["C"] = arg
             elif op == "setP": cur["P"] = arg
             elif op == "setRot": cur["rot"] = arg
@@ -107,7 +134,8 @@ def run_history(ops, how=0):
             elif op == "setEig": cur["eig"] = arg
             sid, k = stress_stamp(se.params.appliedStress)
             e = {"e": "op", "op": op, "arg": arg, "obs": {"dC": stamp4(se.params.cMatrix_4th), "dP": stamp4(se.params.cPrec_4th),
-                                                         "shape": shape_of(se), "sId": sid, "sAngle": k}, "cmp": "eq"}
+                                                         "shape": shape_of(se), "sId": sid, "sAngle": k,
+                                                         "eId": eig_stamp(se.params.eigenstrain)}, "cmp": "eq"}
             if op == "compute":
                 want = canonical_energy(cur, shape_of(se))
                 e["cmp"] = cmp3(val, want, rtol=1e-9, atol=1e-40)
